@@ -20,6 +20,8 @@ func init() {
 			"no-password-on-argv: taint analysis shows no credential reaches an exec.Command argument. NOT decided: that crypto/ssh and the ssh binary honour these settings (trusted), behaviour against a live server.",
 		Assumptions: []string{"crypto/ssh verifies the host key through HostKeyCallback; the OpenSSH client honours its options", "knownhosts.New builds a callback that accepts only keys present in the given file"},
 		Mutants: []Mutant{
+			{ID: "C14-shared-ssh-args", Desc: "NewSSHArgs hands out one package-level SSHArgs", Rule: "C14/fresh-args",
+				Edits: []Edit{{File: "transport/transport.go", Old: "\ta := &SSHArgs{\n\t\tStrictKey: defaultSSHStrictKey,\n\t}\n", New: "\ta := &sharedSSHArgs\n"}, {File: "transport/transport.go", Old: "// NewSSHArgs returns an instance of SSH arguments", New: "var sharedSSHArgs = SSHArgs{StrictKey: defaultSSHStrictKey} //nolint:gochecknoglobals\n\n// NewSSHArgs returns an instance of SSH arguments"}}},
 			{ID: "C14-standard-in-channel-auth", Desc: "the crypto/ssh transport announces in-channel authentication", Rule: "C14/in-channel-auth-set",
 				Edits: []Edit{{File: "transport/standard.go", Old: "func (t *Standard) Write(b []byte) error {", New: "func (t *Standard) GetInChannelAuthType() InChannelAuthType {\n\treturn InChannelAuthSSH\n}\n\nfunc (t *Standard) GetSSHArgs() *SSHArgs {\n\treturn t.SSHArgs\n}\n\nfunc (t *Standard) Write(b []byte) error {"}}},
 			{ID: "C14-platform-options-last", Desc: "platform options applied after the user's (a definition's port beats WithPort)", Rule: "C14/found-driver-options",
@@ -58,6 +60,8 @@ func runC14(c *Ctx, r *Report) {
 	importFoundation(c, r, "C14", "driver-options")
 	r.Rule("C14/no-auth-steering", "the ssh argument list adds no option that steers authentication or host identity beyond the configured key / known-hosts / config file", 1)
 	checkNoAuthSteeringArgs(c, r, "C14/no-auth-steering")
+	r.Rule("C14/fresh-args", "every transport / ssh argument constructor hands out an object of its own: one connection's host-key opt-out cannot persist into the next connection's arguments", 3)
+	checkFreshConstructors(c, r, "C14/fresh-args", func(p string) bool { return strings.HasSuffix(p, "/transport") }, "the arguments are shared between connections, so an option applied for one connection (e.g. disabling strict host-key checking) stays in force for every later one")
 	r.Rule("C14/in-channel-auth-set", "exactly the system (ssh subprocess) and telnet transports ask for in-channel authentication; the crypto/ssh transport, which authenticates inside the protocol, never hands its password to the channel", 3)
 	checkInChannelAuthSet(c, r, "C14/in-channel-auth-set")
 	r.Rule("C14/resolve-order", "ResolveFilePath uses a configured path that exists as given; the home directory is only a fallback", 1)
